@@ -12,6 +12,7 @@ case "$name" in
   C04-makefield|C16-parsefield|C16-unmarshal-target) pkg=cdr/asn ;;
   C06-grant-limit|C09-notify-recharge|C09-sequence-number|C11-requested-unit) pkg=internal/sbi/processor ;;
   C09-cgf-conn) pkg=internal/cgf ;;
+  C09-new-ue) pkg=internal/context ;;
   C12-recharge-rating-group) pkg=internal/sbi ;;
   C17-dictionary) pkg=pkg/rf ;;
   C20-diameter-tls) pkg=internal/abmf ;;
@@ -19,7 +20,7 @@ case "$name" in
   *) echo "unknown finding: $name"; ls "$here"; exit 2 ;;
 esac
 race=""
-case "$name" in C09-*) race="-race" ;; esac
+case "$name" in C09-new-ue) ;; C09-*) race="-race" ;; esac
 ov="$(mktemp /var/tmp/findings_ov_XXXXXX.json)"
 trap 'rm -f "$ov"' EXIT
 {
